@@ -133,12 +133,18 @@ def gen_case(rng):
         n, lags, leads = max(n, 4), 0, 0
     seqs, fault_at = period_outcomes(rng, n, lags, leads)
     vals = [[float(i + 1 + 10 * p) for p in range(n)] for i in range(nE)]
-    regime = rng.choice(['plain'] * 7 + ['float32', 'f32tiny', 'object'])
+    regime = rng.choice(['plain'] * 7 + ['float32', 'f32tiny', 'object', 'deftol', 'deftol'])
     if regime == 'f32tiny':
         # reduced-precision model, magnitudes well below 1, tolerance 1e-10: moves of 2**-26 are representable, are
         # >= tol, and must therefore count as movement in solve() exactly as in solve_t()
         vals = [[2.0 ** -7 * (1 + i + p) for p in range(n)] for i in range(nE)]
         seqs = {p: [rng.choice(['tiny', 'tiny', 'same']) for _ in range(rng.randint(0, 4))] + ['same'] for p in range(n)}
+        fault_at = None
+    if regime == 'deftol':
+        # every keyword at its documented default is left out of the call, on both sides of the comparison; the moves
+        # (2**-30) are above the default tolerance 1e-10
+        vals = [[2.0 ** -7 * (1 + i + p) for p in range(n)] for i in range(nE)]
+        seqs = {p: [rng.choice(['tiny2', 'tiny2', 'same']) for _ in range(rng.randint(0, 4))] + ['same'] for p in range(n)}
         fault_at = None
     script = [sc.make_script(seqs.get(p, []), [vals[i][p] for i in range(nE)], nE) for p in range(n)]
     M = rng.choice([0, 1, 3, 5, 6])
@@ -147,14 +153,17 @@ def gen_case(rng):
     o['min_iter'] = min(o['min_iter'], M)
     if rng.random() < 0.04:
         o['min_iter'] = o['max_iter'] + 1
-    case = {'n': n, 'nE': nE, 'check': [0, 1], 'tol': bits(1e-10 if regime == 'f32tiny' else sc.TOL), 'script': script, 'before': [], 'after': [],
+    case = {'n': n, 'nE': nE, 'check': [0, 1], 'tol': bits(1e-10 if regime in ('f32tiny', 'deftol') else sc.TOL), 'script': script, 'before': [], 'after': [],
             'vals': [[bits(x) for x in row] for row in vals],
             'status': ''.join(rng.choice('-.F') for _ in range(n)) if rng.random() < 0.3 else '-' * n,
             'iters': [-1] * n, 'opts': o, 'lags': lags, 'leads': leads, 't': 0,
             'prov': rng.choice(sc.PROVENANCES), 'write': rng.choice(['inplace', 'inplace', 'rebind']),
             'argform': rng.choice(['plain', 'plain', 'numpy']), 'mix': rng.choice(sc.MIXES),
             'check_edit': rng.random() < 0.3, 'strict': rng.random() < 0.3}
-    if regime != 'plain':
+    if regime == 'deftol':
+        case['argform'] = 'omit'
+        case['opts'].update(min_iter=0, offset=0, errors='raise', catch_first_error=True, max_iter=rng.choice([100, 100, 6]))
+    elif regime != 'plain':
         case['dtype'] = 'float32' if regime in ('float32', 'f32tiny') else 'object'
     for acts in case['script']:
         for a in acts:
@@ -186,7 +195,7 @@ def oracle(case, kind, span, labels, start, end, rep, impl_tag, impl_m, impl_ret
     info = {'case': case, 'kind': kind, 'start': start, 'end': end}
     twin = sc.build_instance(case, span=span)
     twin.__dict__['lags'], twin.__dict__['leads'] = case['lags'], case['leads']
-    kw = sc.opts_kwargs(o, case['tol'])
+    kw = sc.opts_kwargs(o, case['tol'], case.get('argform', 'plain'))
     unchanged = state_of(impl_m, nE) == state_of(twin, nE)
 
     def pos(label):
@@ -240,7 +249,7 @@ def oracle(case, kind, span, labels, start, end, rep, impl_tag, impl_m, impl_ret
 
 def oracle_solve_period(case, kind, span, labels, label, rep):
     nE = case['nE']
-    kw = sc.opts_kwargs(case['opts'], case['tol'])
+    kw = sc.opts_kwargs(case['opts'], case['tol'], case.get('argform', 'plain'))
     a = sc.build_instance(case, span=span)
     b = sc.build_instance(case, span=span)
     for inst in (a, b):
